@@ -73,6 +73,20 @@ static void all_ops_on(struct xcm_socket *s, int is_conn)
         xcm_attr_map_destroy(a);
         if (c)
             OP("xcm_close", xcm_close(c));
+        /* the server stays non-blocking whatever mode is asked for the connection: the call acts on the server
+           socket and must not wait for a client (nor for the client's handshake) */
+        a = xcm_attr_map_create();
+        xcm_attr_map_add_bool(a, "xcm.blocking", true);
+        mc_sched_point("xcm_accept_a(blocking conn)");
+        c = API("xcm_accept_a(blocking conn)", 1, xcm_accept_a(s, a));
+        mc_observe("xcm_accept_a(blocking conn) -> %s", c ? "conn" : errname(errno));
+        g_ops++;
+        xcm_attr_map_destroy(a);
+        if (c) {
+            /* the connection itself is blocking: closing it is not a non-blocking call */
+            xcm_attr_set_bool(c, "xcm.blocking", false);
+            OP("xcm_close", xcm_close(c));
+        }
     }
     OP("xcm_local_addr", xcm_local_addr(s) != NULL);
     OP("xcm_attr_get_all", (xcm_attr_get_all(s, get_all_cb, &n), n));
